@@ -46,6 +46,9 @@ def production_functions(date):
     return _LOADED[date]
 
 
+UNVECTORIZED = "called on whole columns (no numpy.vectorize)"
+
+
 def production_wrapper(f, date, name):
     """the vectorised wrapper production calls for rule f (loader's own dictionary); a fresh real wrapper otherwise"""
     from _gettsim.functions_loader import _vectorize_func
@@ -57,6 +60,8 @@ def production_wrapper(f, date, name):
             vf = None
         if isinstance(vf, numpy.vectorize) and getattr(vf.pyfunc, "__code__", None) is getattr(f, "__code__", None):
             return w
+        if getattr(w, "__code__", None) is getattr(f, "__code__", None):
+            return w           # handed through unchanged
     return _vectorize_func(f)
 
 
@@ -79,7 +84,9 @@ def vectorize_otypes(f, date=None, name=None):
         cv = inspect.getclosurevars(w).nonlocals
         vf = cv.get("func_vec")
     if not isinstance(vf, numpy.vectorize):
-        raise common.HarnessError("cannot find the numpy.vectorize object in wrapper_vectorize_func")
+        # the loader hands the rule to production without numpy.vectorize (whole-column call): no otypes at all;
+        # the wrapper value equation and the declared-dtype obligation decide
+        return UNVECTORIZED
     if vf.otypes is None:
         return None
     from gsv.colsym import otype_to_py
@@ -154,7 +161,9 @@ def analyse_rule(ck, name, f, P, date, done, rnd):
 
     # --- value equation through the REAL vectorize wrapper on a 2-row column ------------------------
     wrapper_value_equation(ck, name, f, P, date, syms, v, term, pre, noerr, r1, r2)
-    if ot is None:
+    if ot == UNVECTORIZED:
+        ck.nontrivial.add(("unvectorized", pyname))
+    elif ot is None:
         # dtype inferred from the first row
         cases = []
         if float in guards and (int in guards or bool in guards):
@@ -234,6 +243,27 @@ def wrapper_value_equation(ck, name, f, P, date, syms, v, term, pre, noerr, r1, 
     if vw is None or not isinstance(vw, SymArray) or len(vw.e) != 2:
         ck.add_inconclusive(f"value-equation {f.__name__}@{date}: wrapper gives no 2-row column")
         return
+    # the column's dtype follows the declared result type (whatever the wrapper does)
+    declared = f.__annotations__.get("return")
+    kinds = {float: "f", int: "iu", bool: "b"}
+    # (where numpy.vectorize infers the dtype from the first row the obligations on path types above decide)
+    if (declared in kinds and getattr(vw.dtype, "kind", None) is not None and vw.dtype.kind not in kinds[declared] + "O"
+            and (vectorize_otypes(f, date, name) is not None or len(R.tyguards(v)) == 1)):
+        ck.obligations += 1
+        sv = z3.Solver()
+        sv.set("timeout", 20000)
+        sv.add([r1(c) for c in pre + noerr] + [r2(c) for c in pre + noerr])
+        rows = rows_from_model(sv.model(), syms) if str(sv.check()) == "sat" else None
+        res = replay_rows(date, name, f.__name__, rows) if rows else None
+        got = {v["dtype"] for k, v in (res or {}).items() if k.startswith("order") and isinstance(v, dict)}
+        ck.nontrivial.add(("declared-dtype", f.__name__))
+        if got and any(numpy.dtype(g).kind not in kinds[declared] for g in got):
+            ck.violation(["declared-dtype", f.__name__], f"{f.__name__} ({name}) at {date}: declared {declared.__name__} but the column comes out as {sorted(got)} for rows={rows}",
+                         {"date": str(date), "name": name, "rows": rows, "label": "declared-dtype"})
+        elif got:
+            common.spurious("C03", f"declared-dtype {f.__name__}: model dtype {vw.dtype} but the API gives {sorted(got)}")
+        else:
+            ck.add_inconclusive(f"declared-dtype {f.__name__}@{date}: no valid rows to replay")
     s1, s2 = r1(term), r2(term)
 
     def neq(a, b):
@@ -561,4 +591,9 @@ def replay(path):
     res = replay_rows(date, d["name"], F[d["name"]].__name__, d["rows"])
     print(json.dumps(res, indent=1, default=str))
     bad = res["value_changed"] or (d["label"] == "dtype-varies" and res["dtype_depends_on_data"])
+    if d["label"] == "declared-dtype":
+        declared = F[d["name"]].__annotations__.get("return")
+        kinds = {float: "f", int: "iu", bool: "b"}
+        got = {v["dtype"] for k, v in res.items() if k.startswith("order") and isinstance(v, dict)}
+        bad = bad or any(numpy.dtype(g).kind not in kinds.get(declared, "fiub") for g in got)
     return 1 if bad else 0
